@@ -8,9 +8,16 @@
           replaces half of a wide character) or, in trace validation, not identifiable
      sty  effective style <<set, top>> in the vocabulary of TextOps.tla (which style ids cover
           the character, whose colour wins); opaque here, only compared.
-   Whitespace = space, tab, newline (the quantifier of C02 has no other).
-   An *input* is [chars, width, justify, overflow, no_wrap, tab]; an output is a sequence of lines,
-   each a sequence of characters.
+   Whitespace = space, tab, newline and the other characters Python (str.isspace, regex \s) counts
+   as white space that a Text can hold: FS GS RS US, NEL, NBSP, OGHAM SPACE, U+2000-200A, LS, PS,
+   NNBSP, MMSP, IDEOGRAPHIC SPACE (cell widths 0, 1 and 2).  The statement only protects
+   non-whitespace characters, so all of these may be dropped at a break like a space.
+   An *input* is [chars, width, justify, overflow, no_wrap, tab, ovarg]; an output is a sequence of
+   lines, each a sequence of characters.  justify / overflow / no_wrap are the EFFECTIVE options of
+   the call (wrap argument if given, else the Text's own attribute, else default / fold / false);
+   ovarg is the overflow exactly as passed in the argument ("none" when the argument is None) - it
+   is read by the implementation-shaped part only (9.10.0 skips the division into lines when the
+   ARGUMENT is "ignore", not when the Text's attribute is).
 
    Property part             : WrapWhy / WrapOK (clauses a-d), Identify (how observed characters,
                                which carry no ids, are matched to input characters).
@@ -28,7 +35,11 @@ DOTS    == 8230
 Blank   == Ch(SP, 1, 0, NoSty)
 Blanks(k) == [i \in 1..k |-> Blank]
 Dots    == Ch(DOTS, 1, 0, NoSty)
-IsWs(c) == c \in {SP, TAB, NL}
+OtherWs == {28, 29, 30, 31, 133, 160, 5760, 8192, 8193, 8194, 8195, 8196, 8197, 8198, 8199, 8200, 8201, 8202,
+            8232, 8233, 8239, 8287, 12288}
+WsCodes == {SP, TAB, NL} \cup OtherWs
+IsWs(c) == c \in WsCodes
+PlainWs(c) == c = SP \/ c \in OtherWs            \* whitespace that wrapping copies as it is (no tab, no newline)
 
 Justifies == {"default", "left", "center", "right", "full"}
 Overflows == {"fold", "crop", "ellipsis", "ignore"}
@@ -177,7 +188,7 @@ Justify(lines, width, how, ov) ==
 \* ---- Text.wrap ------------------------------------------------------------------------------------
 WrapLine(line0, I, design) ==
     LET line     == ExpandTabs(line0, I.tab)
-        noWrap   == I.no_wrap \/ I.overflow = "ignore"
+        noWrap   == I.no_wrap \/ I.ovarg = "ignore"
         pieces   == IF noWrap THEN <<line>>
                     ELSE Divide(line, DivideLine(line, I.width, I.overflow = "fold", design), design)
         stripped == [k \in DOMAIN pieces |-> RstripEnd(pieces[k], I.width)]
@@ -239,9 +250,18 @@ RECURSIVE Cols(_, _, _, _, _)
 Cols(cs, i, hi, col, tab) ==  \* displayed width of cs[i..hi] starting at column col (tab stops)
     IF i > hi THEN col
     ELSE Cols(cs, i + 1, hi, IF cs[i].c = TAB THEN col + tab - (col % tab) ELSE col + cs[i].w, tab)
+RECURSIVE ColsCh(_, _, _, _, _, _)
+ColsCh(cs, i, hi, pos, cells, tab) ==  \* the same with tab stops counted in characters (what str.expandtabs does)
+    IF i > hi THEN cells
+    ELSE IF cs[i].c = TAB THEN LET fill == tab - (pos % tab) IN ColsCh(cs, i + 1, hi, pos + fill, cells + fill, tab)
+    ELSE ColsCh(cs, i + 1, hi, pos + 1, cells + cs[i].w, tab)
+\* The statement does not say where tab stops lie when the indentation holds characters that are not one cell
+\* wide (IDEOGRAPHIC SPACE, zero-width separators): either reading of "the indentation" may justify a break.
 Indent(I, a) ==
     LET ls == LineStart(I.chars, a)
-    IN IF \A j \in ls..(a - 1) : IsWs(I.chars[j].c) THEN Cols(I.chars, ls, a - 1, 0, I.tab) ELSE 0
+    IN IF \A j \in ls..(a - 1) : IsWs(I.chars[j].c)
+       THEN Max2(Cols(I.chars, ls, a - 1, 0, I.tab), ColsCh(I.chars, ls, a - 1, 0, 0, I.tab))
+       ELSE 0
 
 LinesOfIds(lines) ==         \* <<id, line>> for every identified output character
     SelectSeq(Flatten([l \in DOMAIN lines |-> [k \in DOMAIN lines[l] |-> <<lines[l][k].id, l>>]]),
@@ -269,11 +289,12 @@ WrapOK(I, lines) == WrapWhy(I, lines) = "ok"
 \*     it needs no uniqueness of code points);
 \*   * otherwise a character is identified only when its code point occurs exactly once in the
 \*     input (drivers make code points distinct wherever the pools allow it).
-\* Spaces are identified only where the output leaves no doubt:
-\*   * justify # full: a run of spaces between two identified neighbours i < j of one line whose
-\*     length is j - i - 1 and the input between i and j consists of spaces only;
-\*   * justify in {default, left}: the spaces a line starts with, when the input has spaces at
-\*     exactly those positions before the identified first visible character.
+\* Whitespace (spaces and the other plain whitespace characters) is identified only where the output leaves
+\* no doubt:
+\*   * justify # full: a run between two identified neighbours i < j of one line whose length is
+\*     j - i - 1 and the input between i and j consists of the same plain whitespace characters;
+\*   * justify in {default, left}: the run a line starts with, when the input has the same characters
+\*     at exactly those positions before the identified first visible character.
 \* Everything else keeps id 0 (created / not identifiable) and is constrained by (c) only
 \* through its namesakes.
 RECURSIVE Ordinals(_, _, _)
@@ -286,7 +307,9 @@ LineBases(raw, l, acc) ==
     IF l > Len(raw) THEN <<>>
     ELSE <<acc>> \o LineBases(raw, l + 1, acc + Len(NonWs(raw[l])))
 
-AllSpaces(cs, lo, hi) == lo >= 1 /\ \A j \in lo..hi : cs[j].c = SP
+\* line[from..to] are plain whitespace characters and the very characters cs[lo..] of the input
+SameWs(cs, lo, line, from, to) ==
+    lo >= 1 /\ \A q \in from..to : PlainWs(line[q].c) /\ (lo + (q - from)) \in DOMAIN cs /\ cs[lo + (q - from)].c = line[q].c
 
 RECURSIVE PrevVis(_, _, _)
 PrevVis(line, k, last) ==    \* for every position: the nearest visible position at or before it, 0 if none
@@ -306,14 +329,13 @@ IdentifyLine(I, line, ids) ==        \* ids: identities of the non-whitespace ch
         SpaceId(k) ==
             LET L == pv[k]
                 R == nv[k]
-            IN IF line[k].c # SP \/ R = 0 THEN 0
+            IN IF ~PlainWs(line[k].c) \/ R = 0 THEN 0
                ELSE IF ids[R] = 0 THEN 0
                ELSE IF L # 0 THEN
                     (IF I.justify # "full" /\ ids[L] # 0 /\ ids[R] - ids[L] = R - L
-                        /\ AllSpaces(cs, ids[L] + 1, ids[R] - 1)
+                        /\ SameWs(cs, ids[L] + 1, line, L + 1, R - 1)
                      THEN ids[L] + (k - L) ELSE 0)
-               ELSE (IF I.justify \in {"default", "left"} /\ AllSpaces(cs, ids[R] - (R - 1), ids[R] - 1)
-                        /\ \A q \in 1..(R - 1) : line[q].c = SP
+               ELSE (IF I.justify \in {"default", "left"} /\ SameWs(cs, ids[R] - (R - 1), line, 1, R - 1)
                      THEN ids[R] - (R - k) ELSE 0)
     IN [k \in DOMAIN line |->
           [line[k] EXCEPT !.id = IF IsWs(line[k].c) THEN SpaceId(k) ELSE ids[k]]]
